@@ -280,3 +280,118 @@ func VxC04NewStateSystemContractsRevert() {
 	vx.Assert(batch.Write() == nil, "commit")
 	vxCompareImages(before, vxImage(d))
 }
+
+// C04-H2d (new backend): a contract that a reverted block deployed *with storage* is deployed again
+// by the replacement block with different storage. Everything the reverted block left under the
+// contract's storage-trie prefix must be gone, or the replacement's storage root is built on top of
+// stale nodes. The deployed address is an ordinary one or one ending in 0xff (the successor of its key
+// prefix carries into the previous byte - the range delete over the prefix has to get that right).
+func VxC04RedeployAfterRevert() {
+	vx.Bound("new backend; block 0 deploys contract A with one slot; fork A = block 1 deploying contract B (address 0x2000, 0x20ff or 0xffff) with 1..2 storage slots and optionally a nonce; revert; fork B = block 1' deploying B again with a different / overlapping / no storage slot; compared with a node that only ever stored block 0 and block 1'. Values symbolic, addresses and slots from a fixed alphabet.")
+	vx.CollisionFree()
+	a1 := felt.NewFromUint64[felt.Felt](0x1000)
+	var a2 *felt.Felt
+	switch vx.Choice("deployedAddress", 3) {
+	case 0:
+		a2 = felt.NewFromUint64[felt.Felt](0x2000)
+	case 1:
+		a2 = felt.NewFromUint64[felt.Felt](0x20ff)
+		vx.Cover("deployed-address-ends-in-0xff")
+	default:
+		a2 = felt.NewFromUint64[felt.Felt](0xffff)
+		vx.Cover("deployed-address-ends-in-0xffff")
+	}
+	slotW := felt.NewFromUint64[felt.Felt](0x20)
+	slotN := felt.NewFromUint64[felt.Felt](0x21)
+	c0, v0 := vxFeltIn("class0"), vxFeltIn("val0")
+	vx.Assume(!v0.IsZero() && !c0.IsZero())
+	mk0 := func() core.StateDiff {
+		diff0 := core.EmptyStateDiff()
+		diff0.DeployedContracts[*a1] = c0
+		diff0.StorageDiffs[*a1] = map[felt.Felt]*felt.Felt{*slotW: v0}
+		return diff0
+	}
+	d := memory.New()
+	sdb := NewStateDB(d, triedb.New(d, nil))
+	diff0 := mk0()
+	r0, err := vxApply(sdb, d, &felt.Zero, 0, &diff0)
+	vx.Assert(err == nil, "block-0-stores")
+	before := vxImage(d)
+
+	diffA := core.EmptyStateDiff()
+	diffA.DeployedContracts[*a2] = vxFeltIn("A.class")
+	av := vxFeltIn("A.v")
+	vx.Assume(!av.IsZero())
+	diffA.StorageDiffs[*a2] = map[felt.Felt]*felt.Felt{*slotW: av}
+	if vx.Bool("A.twoSlots") {
+		av2 := vxFeltIn("A.v2")
+		vx.Assume(!av2.IsZero())
+		diffA.StorageDiffs[*a2][*slotN] = av2
+	}
+	if vx.Bool("A.nonce") {
+		diffA.Nonces[*a2] = vxFeltIn("A.nonceB")
+	}
+	rA, err := vxApply(sdb, d, &r0, 1, &diffA)
+	vx.Assert(err == nil, "fork-A-stores")
+	if err != nil {
+		return
+	}
+	batch := d.NewBatch()
+	st, err := New(&rA, sdb, batch)
+	vx.Assert(err == nil, "state-opens")
+	rerr := st.Revert(&core.Header{Number: 1}, &core.StateUpdate{OldRoot: &r0, NewRoot: &rA, StateDiff: &diffA})
+	vx.Assert(rerr == nil, "revert-succeeds-for-every-storable-block")
+	if rerr != nil {
+		return
+	}
+	vx.Assert(batch.Write() == nil, "commit")
+	vxCompareImages(before, vxImage(d))
+	// nothing may be left under the storage-trie prefix of the purged contract: a later deployment of the
+	// same address opens its storage trie at that prefix
+	for _, e := range vxImage(d) {
+		if len(e.k) > 0 && e.k[0] == byte(db.ContractTrieStorage) {
+			ab := a2.Bytes()
+			vx.Assert(!(len(e.k) >= 1+len(ab) && bytes.Equal(e.k[1:1+len(ab)], ab[:])), "no-storage-node-of-the-purged-contract-left-behind")
+		}
+	}
+
+	diffB := core.EmptyStateDiff()
+	diffB.DeployedContracts[*a2] = vxFeltIn("B.class")
+	switch vx.Choice("B.storage", 3) {
+	case 0:
+		vx.Cover("redeployed-without-storage")
+	case 1:
+		bv := vxFeltIn("B.v")
+		vx.Assume(!bv.IsZero())
+		diffB.StorageDiffs[*a2] = map[felt.Felt]*felt.Felt{*slotN: bv}
+		vx.Cover("redeployed-with-a-different-slot")
+	default:
+		bv := vxFeltIn("B.v")
+		vx.Assume(!bv.IsZero())
+		diffB.StorageDiffs[*a2] = map[felt.Felt]*felt.Felt{*slotW: bv}
+		vx.Cover("redeployed-with-the-same-slot")
+	}
+	rB, err := vxApply(sdb, d, &r0, 1, &diffB)
+	vx.Assert(err == nil, "fork-B-stores-after-the-revert")
+	if err != nil {
+		return
+	}
+	d2 := memory.New()
+	sdb2 := NewStateDB(d2, triedb.New(d2, nil))
+	diff02 := mk0()
+	r02, err := vxApply(sdb2, d2, &felt.Zero, 0, &diff02)
+	vx.Assert(err == nil && r02.Equal(&r0), "second-node-block-0")
+	rB2, err := vxApply(sdb2, d2, &r02, 1, &diffB)
+	vx.Assert(err == nil, "second-node-fork-B")
+	vx.Assert(rB.Equal(&rB2), "same-state-root-as-a-node-that-never-saw-fork-A")
+	sr, err := NewStateReader(&rB, sdb)
+	vx.Assert(err == nil, "reader-opens-at-the-new-root")
+	if err == nil {
+		gv, e1 := sr.ContractStorage(a2, slotW)
+		want := felt.Zero
+		if w, ok := diffB.StorageDiffs[*a2][*slotW]; ok {
+			want = *w
+		}
+		vx.Assert(e1 == nil && gv.Equal(&want), "redeployed-contract-reads-only-what-the-replacement-block-wrote")
+	}
+}
